@@ -79,7 +79,7 @@ class StatusObserver:
 
 def h_submit(shapes=("chain3",), bss=(1, 2), maxns=(None, 1), tas=(True,), time_based=False, G=1, fails=True,
              cancel_flags=True, lost=False, local=False, procs=None, max_steps=60, max_recoveries=None, rcs=(0, 1),
-             hooks=False, est_choices=(1, 5), wall="0:10:00", dry_run=False, hook_rcs=(0,), aliases=None):
+             hooks=False, est_choices=(1, 5), wall="0:10:00", dry_run=False, hook_rcs=(0,), aliases=None, round_yields=False):
     def harness(ex):
         from world.world import Hang
 
@@ -151,6 +151,15 @@ def h_submit(shapes=("chain3",), bss=(1, 2), maxns=(None, 1), tas=(True,), time_
                 rc_mem[name] = rcs[ex.choice("rc_" + name, len(rcs))] if fails else 0
             return rc_mem[name]
 
+        if round_yields:
+            # a compute node's submitter round can be pre-empted after each release of the cluster lock, so that other
+            # nodes finish and attempt their own rounds while this one holds the submitter role
+            def yield_hook(w_, kind_, detail):
+                if (kind_ == "lock_released" and detail["path"].endswith("cluster_config.json.lock") and w_._thread_proc() is not None
+                        and "try-submit-jobs" in w_.cur.name):
+                    w_.block(("yield", "round"))
+
+            w.effect_hook = yield_hook
         if lost:
             sb_mem = {}
 
@@ -456,6 +465,10 @@ def h_submit(shapes=("chain3",), bss=(1, 2), maxns=(None, 1), tas=(True,), time_
                  crashes=[(c_["argv"][:2], c_["error"]) for c_ in crashes][:3])
         ex.check(obs.reads > 0 or local, "C09: status observer never ran")
         ex.note("histories")
+        if any("Another node is already the submitter" in "".join(c_.out) for p_ in w.procs for c_ in p_.children):
+            ex.note("histories_with_a_refused_submitter_round")
+        if recoveries:
+            ex.note("histories_needing_try_submit_jobs_recovery")
         ex.reached()
 
     return harness
